@@ -104,10 +104,10 @@ def c02(tier, replay):
         "round trip claimed only for vectors with GreedyTailAligned (spec operator)"], RULE)
 
 
-def _both(pid, tier, py_checks, cpp_checks, assumptions, rule):
+def _both(pid, tier, py_checks, cpp_checks, assumptions, rule, layouts=False):
     rep = Report(pid, tier)
     rep.assumptions = assumptions
-    vs = wire.generate(tier)
+    vs = wire.generate_layouts(tier) if layouts else wire.generate(tier)
     for st in vs.stats:
         rep.add_tlc(st)
     py_leg(rep, vs, py_checks)
@@ -118,7 +118,8 @@ def _both(pid, tier, py_checks, cpp_checks, assumptions, rule):
 
 
 def c04(tier, replay):
-    return _both("C04", tier, ["layout"], ["ebs"], ASSUME_CPP, RULE_CPP)
+    return _both("C04", tier, ["layout"], ["ebs"], ASSUME_CPP, RULE_CPP + "; arrays are left empty (layout only)",
+                 layouts=True)
 
 
 def c19(tier, replay):
@@ -290,7 +291,7 @@ def c18(tier, replay):
         keep = g["vectors"] if len(g["vectors"]) <= 6 else rnd.sample(g["vectors"], 6)
         g["vectors"] = keep
         for vec in keep:
-            vec["walk"] = wire.repayload_for_print(env, t, vec["walk"])
+            vec["walk"] = wire.repayload_for_print(env, t, vec["walk"], salt=len(items) * 5)
             items.append({"env": env.defs, "names": env.names, "walk": vec["walk"], "obsL": [], "obsB": []})
             where.append(vec)
     texts, st1 = wire.render_text(items)
@@ -315,7 +316,7 @@ def c18(tier, replay):
 def raw_leg(rep, vs, checks, tier, nbatch=12):
     pid = rep.pid
     all_groups = wire.group_vectors(vs)
-    groups = _select_cpp(all_groups, tier, cap_quick=800)
+    groups = _select_cpp(all_groups, tier, cap_quick=3000 if checks == ["offsets"] else 800, cap_thorough=40000)
     results = wire.run_batches(rawwire.worker, groups, vs, {"checks": checks, "scratch": scratch_dir("raw")},
                                nbatch=nbatch, timeout=3000)
     for r in results:
@@ -344,7 +345,7 @@ ASSUME_RAW = ASSUME_COMMON + [
 def _run_raw(pid, tier, checks, rule):
     rep = Report(pid, tier)
     rep.assumptions = ASSUME_RAW
-    vs = wire.generate(tier, light=True)
+    vs = wire.generate_layouts(tier) if checks == ["offsets"] else wire.generate(tier, light=True)
     wire.add_reproducers(vs, pid)
     for st in vs.stats:
         rep.add_tlc(st)
